@@ -33,8 +33,12 @@ HARNESSES = [
 # generated wrapper has capacity 1 and is freed on drop although nothing was allocated; the same call made natively (a #[test] in the same crate) returns
 # capacity 0 and frees nothing, so the counterexample does not replay on the real code: a tool artefact, treated as undecided, not as a violation (DESIGN 9.19).
 # The empty case is covered for values (C05) and, for the C backend, by C11's import-result obligation (lengths 0..=2).
-# nothing is thorough-only since list lengths are fixed per harness
+# thorough tier: three elements each way for the nested lists
 THOROUGH = [
+    Harness('c06_list_of_strings_result_len3', 'heap.list_of_strings_result_len3', G + 'list<string> (element-wise list), 3 elements returned', bounded=HEAP.replace('0, 1 or 2', '3')),
+    Harness('c06_list_of_strings_param_len3', 'heap.list_of_strings_param_len3', G + 'list<string> (element-wise list), 3 elements sent', bounded=HEAP.replace('0, 1 or 2', '3')),
+    Harness('c06_list_of_mixed_records_result_len3', 'heap.list_of_mixed_records_result_len3', G + 'list<record { u64, string }>, 3 elements returned', bounded=HEAP.replace('0, 1 or 2', '3')),
+    Harness('c06_list_of_mixed_records_param_len3', 'heap.list_of_mixed_records_param_len3', G + 'list<record { u64, string }>, 3 elements sent', bounded=HEAP.replace('0, 1 or 2', '3')),
 ]
 
 GM = 'generated Rust bindings for kani/rustgen_map/probe.wit with --map-type crate::VecMap (crates/rust/src/bindgen.rs MapLift / MapLower / IterMapKey / IterMapValue / GuestDeallocateMap arms) — '
